@@ -100,6 +100,9 @@ pub struct EnumM {
     /// `#[command(help_title = "..")]` on the enum (the heading of its command list; headings are not pinned by any oracle)
     #[serde(default)]
     pub help_title: Option<String>,
+    /// see `RootM::svc`
+    #[serde(default)]
+    pub svc: u8,
 }
 
 /// A `#[derive(CommandGroup)]` enum used as the type of a sub-command (`#[command(subcommand)] Dev(Dev<'a>)`)
@@ -117,6 +120,20 @@ pub struct RootM {
     pub enum_id: String,
     pub hidden: bool,
     pub ident: String,
+    /// service traits written by hand instead of derived: 1 = `#[command(skip_help)]` + a `Help` that knows no command
+    /// (the member takes part in completion, not in help), 2 = `#[command(skip_autocomplete)]` + an `Autocomplete` that
+    /// proposes nothing (listed by help, not completed)
+    #[serde(default)]
+    pub svc: u8,
+}
+
+impl RootM {
+    pub fn in_help(&self) -> bool {
+        !self.hidden && self.svc != 1 && self.enum_id != "RAW"
+    }
+    pub fn in_completion(&self) -> bool {
+        !self.hidden && self.svc != 2 && self.enum_id != "RAW"
+    }
 }
 
 #[derive(Clone, Debug, PartialEq, Eq, Serialize, Deserialize)]
@@ -163,7 +180,7 @@ impl Decl {
     pub fn visible_names(&self) -> Vec<String> {
         let mut out = Vec::new();
         for r in &self.roots {
-            if r.hidden || r.enum_id == "RAW" {
+            if !r.in_completion() {
                 continue;
             }
             for v in &self.enums[&r.enum_id].variants {
@@ -347,8 +364,8 @@ impl Gen<'_> {
         let id = format!("SG{}", self.uid);
         let hide = self.r.below(4);
         let members = vec![
-            RootM { enum_id: first, hidden: hide == 0, ident: "Ma".into() },
-            RootM { enum_id: second, hidden: hide == 1, ident: "Mb".into() },
+            RootM { enum_id: first, hidden: hide == 0, ident: "Ma".into(), svc: 0 },
+            RootM { enum_id: second, hidden: hide == 1, ident: "Mb".into(), svc: 0 },
         ];
         self.subgroups.insert(id.clone(), SubGroupM { id: id.clone(), members, lt: false });
         id
@@ -441,6 +458,11 @@ impl Gen<'_> {
                     let (fname, lname) = if self.r.chance(8) {
                         let (a, b) = self.r.pick(&[("юникод", "юникод"), ("порт_данных", "порт-данных"), ("größe", "größe"), ("値", "値"), ("ñu_x", "ñu-x"), ("𠀀a", "𠀀a")]);
                         (a.to_string(), b.to_string())
+                    } else if self.r.chance(6) {
+                        // underscores that separate nothing (`type_` because `type` is a keyword, `_quiet`, `dry__run`): kebab-case
+                        // is the words joined by single dashes, so no dash can lead, trail or double
+                        let (a, b) = self.r.pick(&[("type_", "type"), ("loop_", "loop"), ("_quiet", "quiet"), ("dry__run", "dry-run"), ("_raw_mode_", "raw-mode"), ("match_", "match")]);
+                        (a.to_string(), b.to_string())
                     } else {
                         (ws.join("_"), ws.join("-"))
                     };
@@ -476,7 +498,7 @@ impl Gen<'_> {
                         let mut lg = false;
                         let mut shadow_h = false;
                         if c < 60 {
-                            if self.r.chance(70) {
+                            if self.r.chance(70) && !fname.starts_with('_') {
                                 s = fname.chars().next();
                                 sg = true;
                             } else {
@@ -589,6 +611,7 @@ impl Gen<'_> {
                 variants,
                 lt: false,
                 help_title: if self.r.chance(15) { Some(self.r.pick(&["Led", "Сеть", "Base commands", "X"]).to_string()) } else { None },
+                svc: 0,
             },
         );
         id
@@ -643,6 +666,7 @@ pub fn generate_opts(id: usize, r: &mut R, help_names: bool) -> Decl {
             enum_id: e,
             hidden: grouped && g.r.chance(25),
             ident: format!("M{}", i),
+            svc: 0,
         });
     }
     if grouped {
@@ -662,6 +686,7 @@ pub fn generate_opts(id: usize, r: &mut R, help_names: bool) -> Decl {
                 enum_id: "RAW".into(),
                 hidden: false,
                 ident: "Raw".into(),
+                svc: 0,
             });
         }
     }
@@ -716,7 +741,7 @@ pub fn generate_opts(id: usize, r: &mut R, help_names: bool) -> Decl {
                 let root = g.enums.get_mut(&roots[0].enum_id).unwrap();
                 root.variants.extend(variants);
             } else {
-                g.enums.insert(id.clone(), EnumM { id: id.clone(), variants, lt: false, help_title: None });
+                g.enums.insert(id.clone(), EnumM { id: id.clone(), variants, lt: false, help_title: None, svc: 0 });
                 next = Some(id);
             }
         }
@@ -738,6 +763,17 @@ pub fn generate_opts(id: usize, r: &mut R, help_names: bool) -> Decl {
             let k = g.r.below(vv.len());
             vv[k].name = hname;
             vv[k].explicit = true;
+        }
+    }
+    // one member whose Help or Autocomplete is written by hand (`#[command(skip_help)]` / `skip_autocomplete`): help asks
+    // only the Help of a member, completion only its Autocomplete
+    if grouped && !help_names && g.r.chance(30) {
+        let cand: Vec<usize> = (0..roots.len()).filter(|i| !roots[*i].hidden && roots[*i].enum_id != "RAW").collect();
+        if cand.len() >= 2 {
+            let k = cand[g.r.below(cand.len())];
+            let svc = 1 + g.r.below(2) as u8;
+            roots[k].svc = svc;
+            enums.get_mut(&roots[k].enum_id).unwrap().svc = svc;
         }
     }
     let ids: Vec<String> = enums.keys().cloned().collect();
@@ -863,6 +899,11 @@ fn lt(b: bool) -> &'static str {
 fn emit_enum(en: &EnumM, enums: &BTreeMap<String, EnumM>, groups: &BTreeMap<String, SubGroupM>) -> String {
     let mut o = String::new();
     o.push_str("#[derive(Debug, Command)]\n");
+    if en.svc == 1 {
+        o.push_str("#[command(skip_help)]\n");
+    } else if en.svc == 2 {
+        o.push_str("#[command(skip_autocomplete)]\n");
+    }
     if let Some(t) = &en.help_title {
         o.push_str(&format!("#[command(help_title = \"{}\")]\n", t));
     }
@@ -949,8 +990,21 @@ pub fn emit_module(d: &Decl) -> String {
     let mut o = String::new();
     o.push_str(&format!("pub mod d{} {{\n    #![allow(dead_code, unused, non_camel_case_types)]\n    use embedded_cli::{{Command, CommandGroup}};\n    use embedded_cli::command::RawCommand;\n\n", d.id));
     let mut body = String::new();
+    let mut mods = String::new();
     for e in d.enums.values() {
         body.push_str(&emit_enum(e, &d.enums, &d.subgroups));
+        let (il, tl) = if e.lt { ("<'a>", "<'a>") } else { ("", "") };
+        if e.svc == 1 {
+            body.push_str(&format!(
+                "impl{il} embedded_cli::service::Help for {id}{tl} {{\n    fn command_count() -> usize {{ 0 }}\n    fn list_commands<WW: embedded_io::Write<Error = EE>, EE: embedded_io::Error>(_writer: &mut embedded_cli::writer::Writer<'_, WW, EE>) -> Result<(), EE> {{ Ok(()) }}\n    fn command_help<WW: embedded_io::Write<Error = EE>, EE: embedded_io::Error, FF: FnMut(&mut embedded_cli::writer::Writer<'_, WW, EE>) -> Result<(), EE>>(_parent: &mut FF, _command: RawCommand<'_>, _writer: &mut embedded_cli::writer::Writer<'_, WW, EE>) -> Result<(), embedded_cli::service::HelpError<EE>> {{ Err(embedded_cli::service::HelpError::UnknownCommand) }}\n}}\n\n",
+                il = il, tl = tl, id = e.id
+            ));
+        } else if e.svc == 2 {
+            body.push_str(&format!(
+                "impl{il} embedded_cli::service::Autocomplete for {id}{tl} {{\n    fn autocomplete(_request: embedded_cli::autocomplete::Request<'_>, _autocompletion: &mut embedded_cli::autocomplete::Autocompletion<'_>) {{}}\n}}\n\n",
+                il = il, tl = tl, id = e.id
+            ));
+        }
     }
     for g in d.subgroups.values() {
         body.push_str(&format!("#[derive(Debug, CommandGroup)]\npub enum {}{} {{\n", g.id, lt(g.lt)));
@@ -960,7 +1014,14 @@ pub fn emit_module(d: &Decl) -> String {
             } else if (d.id + g.id.len()) % 3 == 0 {
                 body.push_str("    #[group(hidden = false)]\n");
             }
-            body.push_str(&format!("    {}({}{}),\n", m.ident, m.enum_id, lt(d.enums[&m.enum_id].lt)));
+            if (d.id + g.id.len()) % 4 == 2 {
+                // every member type is called `Commands` in a module of its own (`led::Commands`, `adc::Commands`)
+                let l = lt(d.enums[&m.enum_id].lt);
+                body.push_str(&format!("    {}({}_{}::Commands{}),\n", m.ident, g.id.to_lowercase(), m.ident.to_lowercase(), l));
+                mods.push_str(&format!("pub mod {}_{} {{\n    pub type Commands{} = super::{}{};\n}}\n\n", g.id.to_lowercase(), m.ident.to_lowercase(), l, m.enum_id, l));
+            } else {
+                body.push_str(&format!("    {}({}{}),\n", m.ident, m.enum_id, lt(d.enums[&m.enum_id].lt)));
+            }
         }
         body.push_str("}\n\n");
     }
@@ -976,6 +1037,11 @@ pub fn emit_module(d: &Decl) -> String {
             }
             if r.enum_id == "RAW" {
                 body.push_str(&format!("    {}(RawCommand<'a>),\n", r.ident));
+            } else if d.id % 4 == 2 {
+                // member types that share their name and differ only in the path that leads to them
+                let l = lt(d.enums[&r.enum_id].lt);
+                body.push_str(&format!("    {}(root_{}::Commands{}),\n", r.ident, r.ident.to_lowercase(), l));
+                mods.push_str(&format!("pub mod root_{} {{\n    pub type Commands{} = super::{}{};\n}}\n\n", r.ident.to_lowercase(), l, r.enum_id, l));
             } else {
                 body.push_str(&format!("    {}({}{}),\n", r.ident, r.enum_id, lt(d.enums[&r.enum_id].lt)));
             }
@@ -985,6 +1051,7 @@ pub fn emit_module(d: &Decl) -> String {
         let r = &d.roots[0];
         body.push_str(&format!("pub type Root{} = {}{};\n\n", lt(d.root_lt), r.enum_id, lt(d.root_lt)));
     }
+    body.push_str(&mods);
     let names: Vec<String> = d.visible_names().iter().map(|n| format!("{:?}.to_string()", n)).collect();
     body.push_str(&format!(
         "pub struct Set;\nimpl vmodel::session::CmdSet for Set {{\n    type C = Root{st};\n    const NAME: &'static str = \"d{id}\";\n    fn names() -> Vec<String> {{ vec![{names}] }}\n    fn parse<'a>(raw: RawCommand<'a>) -> Result<String, embedded_cli::service::ParseError<'a>> {{\n        <Root{a} as embedded_cli::service::FromRaw<'a>>::parse(raw).map(|c| format!(\"{{:?}}\", c))\n    }}\n    vmodel::impl_via_processor!(Root{u});\n}}\n",
@@ -1315,7 +1382,7 @@ pub enum HelpExpect {
 /// of which may be -h/--help) ends up.
 pub fn ref_help_target(d: &Decl, name: &str, tokens: &[String]) -> HelpExpect {
     for r in &d.roots {
-        if r.hidden || r.enum_id == "RAW" {
+        if !r.in_help() {
             continue;
         }
         if d.enums[&r.enum_id].variants.iter().any(|v| v.name == name) {
